@@ -652,6 +652,13 @@ Proof.
                | split; [reflexivity | cbn; discriminate]].
 Qed.
 
+Example ex_bracket_K1 : bracket QA (3 # 10) [1] [1 # 2] = ((1 # 2) + (3 # 10) * 1, (1 # 2) + (3 # 10))%Q.
+Proof. reflexivity. Qed.
+
+(* hypotheses of f_strictly_decreasing: two points above every q *)
+Example ex_above : above ex_q (14 # 24) /\ (14 # 24) < (5 # 6).
+Proof. split; [repeat constructor | reflexivity]. Qed.
+
 (* a state reachable by the loop, for width_k / loop_spec *)
 Example ex_state : St ex_lam ex_pi ex_q (14 # 24) (5 # 6) 0 (14 # 24) (5 # 6) (mid QA (14 # 24) (5 # 6)).
 Proof. apply St_init; [exact ex_hyp | exact ex_bracket]. Qed.
